@@ -317,6 +317,19 @@ def oracle(case: dict):
                 got = getattr(s, name)
                 if list(got.items()) != list(exp.items()):
                     return ("tables", f"step {step} {op[0]}: {name} = {got!r}, expected {exp!r}")
+        if op[0] in ("update", "ior", "merge") and op[1][0] == "sd" and case.get("placeholders"):
+            # with placeholder entries in the data the closing clean-up may DELETE table rows (duplicates); what stays still
+            # follows the rule: merge never replaces a row the target had, update takes the argument's row
+            o = mk_sdict(op[1][1])
+            for name, tb, ot in (("line_comments", tabs_before[0], o.line_comments), ("block_comments", tabs_before[1], o.block_comments),
+                                 ("includes", tabs_before[2], o.includes), ("expressions", tabs_before[3], o.expressions)):
+                got = getattr(s, name)
+                for k, v in got.items():
+                    exp = (tb[k] if k in tb else ot.get(k, v)) if op[0] == "merge" else (ot[k] if k in ot else tb.get(k, v))
+                    if v != exp:
+                        return ("tables", f"step {step} {op[0]}: {name}[{k}] = {v!r}, the rule gives {exp!r} (target had {tb.get(k)!r}, argument has {ot.get(k)!r})")
+                    if k not in tb and k not in ot:
+                        return ("tables", f"step {step} {op[0]}: {name}[{k}] appeared from nowhere")
     return None
 
 
@@ -524,6 +537,32 @@ def run(ctx):
         if rng.random() < 0.5:
             ops.append(("merge", ("plain", {nm: {"late": 1} for nm in names}), ""))
         cases.append({"init": init, "ops": ops, "ordinary": True, "placeholders": False, "alias_args": True})
+    # two SDicts whose tables use the SAME ids for different entries (ids are unique per counter run only): the argument
+    # brings a placeholder entry the target lacks on that level, the target uses that id elsewhere or keeps a left-over row
+    for i in range(ctx.n(60, 1200)):
+        n = rng.randrange(0, 6)
+        kind = rng.choice(["lc", "bc", "inc"])
+        word = {"lc": "LINECOMMENT", "bc": "BLOCKCOMMENT", "inc": "INCLUDE"}[kind]
+        val = {"lc": ("// about x", "// about b"), "bc": ("/* licence */", "/* about y */"),
+               "inc": (("#include 'p1'", "p1", "/work/p1"), ("#include 'sub/p1'", "sub/p1", "/work/sub/p1"))}[kind]
+        ph = f"{word}{n:06d}"
+        init = {"data": {"x": 1, "sub": {"y": 2}}, "lc": {}, "bc": {}, "inc": {}, "ex": {}}
+        init[kind][n] = val[0]
+        where = rng.randrange(3)
+        if where == 0:
+            init["data"]["sub"][ph] = ph          # the target uses the id one level down
+        elif where == 1:
+            init["data"] = {ph: ph, **init["data"]}      # ... or at the top, and the argument brings it one level down
+        arg = {"data": {"b": 3, "sub": {"z": 4}}, "lc": {}, "bc": {}, "inc": {}, "ex": {}}
+        arg[kind][n] = val[1]
+        if where == 1:
+            arg["data"]["sub"][ph] = ph
+        else:
+            arg["data"] = {ph: ph, **arg["data"]}
+        ops = [(rng.choice(["merge", "merge", "update", "ior"]), ("sd", arg), "")]
+        if rng.random() < 0.4:
+            ops.append(rand_op(rng, True))
+        cases.append({"init": init, "ops": ops, "ordinary": False, "placeholders": True})
     # the self-reference exception of merge (correspondence only; outside the ordinary domain)
     for i in range(ctx.n(100, 2000)):
         k = rng.choice(["a", "b", "ab"])
